@@ -606,11 +606,12 @@ func (c *Context) GetFunction(name string) (*BuiltinFunction, error) {
 	if obj == nil || obj.Value == nil {
 		return nil, fmt.Errorf(`"%s" is not a function`, name)
 	}
-	// Value exists, but unable to access in current scope
-	if obj.Value.Scopes&c.curMode == 0 {
+	// Value exists, but unable to access in current scope.
+	// Like variables, a function must be available in every scope of a multi-scope subroutine.
+	if obj.Value.Scopes&c.curMode != c.curMode {
 		return nil, fmt.Errorf(
 			`function "%s" is not available in scope %s\nSee reference documentation: %s`,
-			name, ScopeString(c.curMode), obj.Value.Reference,
+			name, strings.TrimSpace(ScopesString((obj.Value.Scopes&c.curMode)^c.curMode)), obj.Value.Reference,
 		)
 	}
 
